@@ -94,19 +94,49 @@ def check_limits(prog, rep):
                 continue
             rep.saw(f)
             g = f.params()[1]
-            txt = " ; ".join(dump(s) for s in walk_no_nested(f.node) if isinstance(s, ast.Assign))
-            okp = ("p = %s.afreq()" % g) in txt and ("ploidy = %s.ploidy" % g) in txt
+            defs = {}
+            for s_ in walk_no_nested(f.node):
+                if isinstance(s_, ast.Assign) and len(s_.targets) == 1 and isinstance(s_.targets[0], ast.Name):
+                    defs.setdefault(s_.targets[0].id, []).append("".join(dump(s_.value).split()))
             call = [n for n in walk_no_nested(f.node) if isinstance(n, ast.Call) and dump(n.func) == "self.%s_numpy" % nm]
             callee = prog.lookup_method(K, nm + "_numpy")
-            want_args = [a for a in callee.params()[1:] if a in ("p", "ploidy", "unscale")]
-            okc = len(call) == 1 and [dump(a) for a in call[0].args[:len(want_args)]] == want_args
-            if okp and okc:
-                rep.ok("R1-limits", f.qualname, "%s = %s_numpy(%s.afreq(), %s.ploidy, unscale)" % (nm, nm, g, g))
-            elif len(call) == 1 and not okc:
-                rep.violate("R1-limits", f.qualname, "%s_numpy receives (%s), not (%s)" % (nm, ", ".join(dump(a) for a in call[0].args[:3]), ", ".join(want_args)), where(f, call[0]),
-                            ", ".join(want_args), ", ".join(dump(a) for a in call[0].args[:3]))
-            elif len(call) == 1 and "afreq" not in txt:
-                rep.violate("R1-limits", f.qualname, "allele frequencies are not taken from the genotype matrix's afreq()", where(f), "p = %s.afreq()" % g, "other")
+            cps = callee.params()[1:]
+            if len(call) != 1 or len(call[0].args) < 2 or len(cps) < 2:
+                rep.unrec("R1-limits", f.qualname, "frequency / ploidy hand-off not in the modelled form")
+                continue
+            a = call[0].args
+
+            def roles(e):
+                """what a hand-off argument can hold: 'afreq' (the matrix's own frequencies), 'ploidy' (the matrix's ploidy), 'param:<name>'"""
+                out = set()
+                if isinstance(e, ast.Name):
+                    for d in defs.get(e.id, []):
+                        if d == "%s.afreq()" % g:
+                            out.add("afreq")
+                        elif d == "%s.ploidy" % g:
+                            out.add("ploidy")
+                        elif d.startswith("%s.afreq(" % g):
+                            out.add("afreq-with-arguments")
+                    if e.id in f.params():
+                        out.add("param:" + e.id)
+                return out
+            r0, r1 = roles(a[0]), roles(a[1])
+            fwd = True
+            if len(cps) > 2 and cps[2] in f.params():
+                third = a[2] if len(a) > 2 else {k.arg: k.value for k in call[0].keywords}.get(cps[2])
+                fwd = third is not None and dump(third) == cps[2]
+            if "afreq" in r0 and "ploidy" in r1 and fwd:
+                rep.ok("R1-limits", f.qualname, "%s = %s_numpy(%s.afreq(), %s.ploidy%s)" % (nm, nm, g, g, ", " + cps[2] if len(cps) > 2 else ""))
+            elif "ploidy" in r0 or "afreq" in r1:
+                rep.violate("R1-limits", f.qualname, "%s_numpy receives the matrix's %s where its frequencies belong (arguments exchanged): (%s)"
+                            % (nm, "ploidy" if "ploidy" in r0 else "frequencies as ploidy", ", ".join(dump(x) for x in a[:3])), where(f, call[0]),
+                            "%s.afreq(), %s.ploidy" % (g, g), ", ".join(dump(x) for x in a[:3]))
+            elif not fwd:
+                rep.violate("R1-limits", f.qualname, "%s is not forwarded to %s_numpy under its own name" % (cps[2], nm), where(f, call[0]), cps[2], "absent / other")
+            elif "afreq" not in r0 and not any("afreq" in d for ds in defs.values() for d in ds):
+                rep.violate("R1-limits", f.qualname, "allele frequencies are not taken from the genotype matrix's afreq()", where(f), "%s.afreq()" % g, "other")
+            elif "afreq-with-arguments" in r0:
+                rep.unrec("R1-limits", f.qualname, "frequencies requested with arguments: %s" % defs.get(a[0].id))
             else:
                 rep.unrec("R1-limits", f.qualname, "frequency / ploidy hand-off not in the modelled form")
 
